@@ -1,2 +1,10 @@
 """Input classes of the known findings (committed; never written at run time).
 Each function: (key, payload) -> bool: does this failing case belong to the finding's class?"""
+
+import re
+
+
+def D19(key, payload):
+    """date-time check, a timestamp whose seconds field is 60."""
+    m = re.match(r"C16-formats:date-time:\d{4}-\d\d-\d\d[Tt]\d\d:\d\d:60([.]\d+)?([Zz]|[+-]\d\d:\d\d)$", key)
+    return bool(m) and "rejected" in str(payload.get("what", ""))
